@@ -119,3 +119,33 @@ def body_calls(stmts: Sequence[ast.stmt]) -> List[ast.Call]:
 def find_in(stmts: Sequence[ast.stmt], *names: str) -> List[ast.Call]:
     want = set(names)
     return [c for c in body_calls(stmts) if (call_name(c) or callee_shape(c.func)) in want]
+
+
+def value_slice(stmts, match, value_of, tail=None, returns=None):
+    """A synthetic function body computing `value_of(call)` of the first call matching `match` that
+    the statements reach: control structure (if/elif/else) and assignments to plain locals are
+    kept, matching calls become `return <value>`, everything else is dropped.  Interpreted with
+    pred.eval_function to tabulate the value as a function of the guards' inputs."""
+    import copy
+
+    def conv(block):
+        out = []
+        for st in block:
+            if isinstance(st, ast.If):
+                out.append(ast.If(test=copy.deepcopy(st.test), body=conv(st.body) or [ast.Pass()], orelse=conv(st.orelse)))
+            elif isinstance(st, (ast.Assign, ast.AnnAssign)) and all(isinstance(t, ast.Name) for t in (st.targets if isinstance(st, ast.Assign) else [st.target])) and getattr(st, "value", None) is not None and not any(isinstance(x, ast.Await) for x in ast.walk(st)):
+                out.append(copy.deepcopy(st))
+            elif isinstance(st, ast.Raise):
+                out.append(copy.deepcopy(st))
+            elif isinstance(st, ast.Return) and not [c for c in ast.walk(st) if isinstance(c, ast.Call) and match(c)]:
+                if returns is not None:
+                    out.append(ast.Return(value=ast.Constant(value=returns)))
+            else:
+                hits = [c for c in ast.walk(st) if isinstance(c, ast.Call) and match(c)]
+                if hits:
+                    out.append(ast.Return(value=copy.deepcopy(value_of(hits[0]))))
+        return out
+
+    fn = ast.FunctionDef(name="slice", args=ast.arguments(posonlyargs=[], args=[], kwonlyargs=[], kw_defaults=[], defaults=[]), body=conv(stmts) + [ast.Return(value=tail if tail is not None else ast.Constant(value="<no emission>"))], decorator_list=[], lineno=0)
+    ast.fix_missing_locations(fn)
+    return fn
